@@ -373,13 +373,12 @@ Schema::Evaluate(const std::string& input) const {
 }
 
 void Schema::TriggerParse(const EntityUID target) {
-  ParseCst(target);
   const auto expansion = Graph().ExpandOutputs({ target });
-  const auto orderedList = Graph().Sort(expansion);
-  for (const auto dependant : orderedList) {
-    if (dependant != target) {
-      ParseCst(dependant);
-    }
+  for (const auto dependant : expansion) {
+    info.at(dependant).Reset();
+  }
+  for (const auto dependant : Graph().Sort(expansion)) {
+    ParseCst(dependant);
   }
 }
 
